@@ -341,7 +341,7 @@ def check_native(case):
 
 
 HIST_OPS = ["attach", "attach", "attach", "orbit_propagate", "new", "copy", "sweep",
-            "scribble", "scribble", "repeat", "repeat", "edit", "edit"]
+            "scribble", "scribble", "repeat", "repeat", "edit", "edit", "bad_attach", "clone"]
 # metadata of an element set: not in the six-element array, but part of what is propagated (bstar) or
 # of the text the wrapper regenerates (the others)
 META_FIELDS = ["bstar", "bstar", "bstar", "ndot", "nddot", "cat", "desig", "rev", "elnum"]
@@ -376,9 +376,9 @@ def history_case(draw):
     ops = []
     for k in range(nops):
         r = plan // 10 ** (6 * k) % 10**6
-        ops.append(dict(op=HIST_OPS[r % 13], kind=("wrapper", "native")[r // 13 % 2], prop=r // 26 % 3,
-                        tle=r // 78 % 3, how=SCRIBBLES[r // 234 % 4], spell=("date", "timedelta")[r // 936 % 2],
-                        field=META_FIELDS[r // 1872 % 9], val=draw(st.integers(0, 999)), dt_us=draw(_HIST_DT)))
+        ops.append(dict(op=HIST_OPS[r % 15], kind=("wrapper", "native")[r // 15 % 2], prop=r // 30 % 3,
+                        tle=r // 90 % 3, how=SCRIBBLES[r // 270 % 4], spell=("date", "timedelta")[r // 1080 % 2],
+                        field=META_FIELDS[r // 2160 % 9], val=draw(st.integers(0, 999)), dt_us=draw(_HIST_DT)))
     return dict(tles=tles, nprops=draw(st.integers(2, 3)), ops=ops, variants=variants)
 
 
@@ -440,6 +440,8 @@ def check_history(case):
     klass = dict(wrapper=Sgp4, native=Sgp4Beta)
     props = {k: [klass[k]() for _ in range(case["nprops"])] for k in klass}
     attached = {k: [None] * case["nprops"] for k in klass}
+    attached_obj = {k: [None] * case["nprops"] for k in klass}  # the very orbit object each propagator holds
+    clones = []  # (orbit cloned at some point, the element set it held THEN)
     last = {k: [None] * case["nprops"] for k in klass}  # (result, dt_us, element set) of the latest request
     handed = []  # every result ever received (kept alive: identity comparisons stay meaningful)
     scribbled = set()
@@ -507,10 +509,39 @@ def check_history(case):
         if name == "attach":
             props[kind][j].orbit = orbits[i]
             attached[kind][j] = i
+            attached_obj[kind][j] = orbits[i]
         elif name == "new":
             props[kind][j] = klass[kind]()
             attached[kind][j] = None
+            attached_obj[kind][j] = None
             last[kind][j] = None
+        elif name == "bad_attach":
+            # an orbit that cannot be attached (its ndot does not fit the TLE field / it is not in TLE form):
+            # the attempt must be refused AS A WHOLE - afterwards the propagator is what it was before
+            bad = orbits[i].copy()
+            if kind == "wrapper":
+                bad.ndot = 5.0
+            else:
+                bad = bad.copy(form="keplerian_mean")
+            p = props[kind][j]
+            try:
+                p.orbit = bad
+            except (ValueError, TypeError):
+                pass
+            else:
+                raise Violation(f"history-{kind}:bad-attach-accepted", f"step {step}: an orbit that cannot be written as a "
+                                "TLE / is not in TLE form was attached without complaint")
+            held = p.orbit if kind == "wrapper" else getattr(p, "tle", None)
+            if held is not attached_obj[kind][j]:
+                raise Violation(f"history-{kind}:half-attached", f"step {step}: after a refused attach propagator "
+                                f"{kind}#{j} holds {'the refused orbit' if held is bad else repr(held)[:40]}, not the orbit "
+                                "it held before (its SGP4 coefficients are still the old ones)")
+        elif name == "clone":
+            import pickle
+
+            if len(clones) < 3:
+                c = orbits[i].copy() if op.get("val", 0) % 2 else pickle.loads(pickle.dumps(orbits[i]))
+                clones.append((c, dict(tles[i])))
         elif name == "copy":
             # the orbit object is replaced by a copy (which carries a propagator of its own)
             orbits[i] = orbits[i].copy()
@@ -520,6 +551,7 @@ def check_history(case):
             p = props["wrapper"][j]
             orbits[i].propagator = p
             attached["wrapper"][j] = i
+            attached_obj["wrapper"][j] = orbits[i]
             mjd, us = target(tles[i], op["dt_us"])
             try:
                 got = orbits[i].propagate(Date(to_datetime(mjd, us)))
@@ -539,6 +571,7 @@ def check_history(case):
                 for jj in range(case["nprops"]):
                     if attached[k][jj] == i:
                         props[k][jj].orbit = orbits[i]
+                        attached_obj[k][jj] = orbits[i]
         elif name == "scribble":
             # the caller works on the state it was given: in place
             for k in klass:
@@ -563,6 +596,19 @@ def check_history(case):
             for jj in range(case["nprops"]):
                 if attached[k][jj] is not None:
                     probe(k, jj, cur_dt, step, spell)
+        # ... and a clone taken BEFORE later edits still is the element set it was cloned from
+        for c, f0 in clones:
+            mjd, us = target(f0, cur_dt)
+            err, rr, rv, sat = reference(f0, mjd, us)
+            if err == 0:
+                d = to_datetime(mjd, us)
+                ptol, vtol, _ = comparable(sat, cur_dt, rr, rv)
+                try:
+                    worst = max(worst, compare(c.propagate(Date(d)), d, rr, rv, ptol, vtol, what="history-clone"))
+                except Violation as v:
+                    raise Violation(v.kind, f"after step {step} ({name}): a clone taken earlier no longer propagates as "
+                                    f"the element set it was cloned from: {v.msg}", **v.data) from None
+                labels.append("clone-probed")
     kinds_live = sum(1 for k in klass for jj in range(case["nprops"]) if attached[k][jj] is not None)
     if kinds_live >= 2:
         labels.append("two-or-more-attached")
@@ -811,7 +857,9 @@ def check_spellings(case):
             for k, (a, b) in enumerate(zip(firsts, seconds)):
                 for sv, t0 in ((a, date_dt), (b, date_dt + shift)):
                     want = t0 + k * step
-                    if abs((sv.date.change_scale("UTC").datetime - want).total_seconds()) > 1.5e-6:
+                    # (under a non-UTC label the range runs on that scale's own clock: leap seconds, TDB term)
+                    if case["date_scale"] == "UTC" and abs(
+                            (sv.date.change_scale("UTC").datetime - want).total_seconds()) > 1.5e-6:
                         raise Violation("spelling:date", f"{route}: point {k} dated {sv.date}, its range says {want} UTC "
                                         f"[{cls}]")
                     judge(sv)
